@@ -19,7 +19,6 @@ package ipfilter
 
 import (
 	"net"
-	"strings"
 
 	"github.com/yl2chen/cidranger"
 
@@ -61,9 +60,11 @@ func New(spec *Spec) *IPFilter {
 		for _, ipcidr := range ipcidrs {
 			ip := net.ParseIP(ipcidr)
 			if ip != nil {
+				// An IPv4-mapped IPv6 literal (e.g. ::ffff:1.2.3.4) is an IPv4
+				// address for net.IP and for cidranger, so the mask must be
+				// chosen by the address family, not by the spelling.
 				mask := allOnesIPv4Mask
-				// https://stackoverflow.com/a/48519490/1705845
-				if strings.Count(ipcidr, ":") >= 2 {
+				if ip.To4() == nil {
 					mask = allOnesIPv6Mask
 				}
 				ipNet := net.IPNet{IP: ip, Mask: mask}
@@ -75,6 +76,12 @@ func New(spec *Spec) *IPFilter {
 			if err != nil {
 				logger.Errorf("BUG: %s is an invalid ip or cidr", ipcidr)
 				continue
+			}
+			if ip4 := ipNet.IP.To4(); ip4 != nil && len(ipNet.Mask) == net.IPv6len {
+				// IPv4-mapped IPv6 CIDR (e.g. ::ffff:1.2.3.0/120): use the
+				// equivalent IPv4 network, cidranger can't handle an IPv4
+				// network with an IPv6 mask.
+				ipNet = &net.IPNet{IP: ip4, Mask: ipNet.Mask[net.IPv6len-net.IPv4len:]}
 			}
 			ranger.Insert(cidranger.NewBasicRangerEntry(*ipNet))
 		}
